@@ -73,8 +73,12 @@ def mt_leg(rep, tier):
             for x in v[-1]["viol"]:
                 rep.mismatch(x["class"], x["action"], expected=x["expected"], actual=x["actual"], at_event=evs[x["k"] - 1]["k"],
                              script=scr, puppet="mt7", threads=nt)
-            last = [o for o in obs if o.get("ev") == "obs"][-1]["res"]
-            if last.get("ok") and isinstance(last.get("ret"), dict) and last["ret"].get("kind") == "exit":
+            # the command that reported the program's exit (with one worker thread an earlier `continue` of
+            # the script already runs to the end; the commands after it are refused, which is as it should be)
+            exits = [o["res"] for o in obs if o.get("ev") == "obs" and o["res"].get("ok")
+                     and isinstance(o["res"].get("ret"), dict) and o["res"]["ret"].get("kind") == "exit"]
+            last = exits[0] if exits else [o for o in obs if o.get("ev") == "obs"][-1]["res"]
+            if exits:
                 if end[-1]["stdout"] != nat.stdout:
                     rep.mismatch("output_differs", "session", expected=nat.stdout, actual=end[-1]["stdout"], script=scr, puppet="mt7", threads=nt)
                 if last["ret"].get("code") != nat.returncode:
